@@ -293,7 +293,18 @@ func (f *File) ReadDir(n int) ([]fs.DirEntry, error) {
 	if f.std != 0 || f.n.kind != 'd' {
 		return nil, pathErr("readdirent", f.name, syscall.ENOTDIR)
 	}
-	return dirEntries(f.name, f.n), nil
+	// (*os.File).ReadDir / Readdir / Readdirnames return entries "in directory order" - whatever the file system
+	// happens to keep, unlike os.ReadDir, which sorts. That order is a schedule like a map's: one map-order event.
+	ents := dirEntries(f.name, f.n)
+	if len(ents) >= 2 {
+		idx := schedule(len(ents), "dirlist:(*os.File).ReadDir", false, func(i, j int) bool { return ents[i].Name() < ents[j].Name() })
+		out := make([]fs.DirEntry, len(ents))
+		for i, j := range idx {
+			out[i] = ents[j]
+		}
+		ents = out
+	}
+	return ents, nil
 }
 
 func (f *File) Chmod(mode fs.FileMode) error { probe("File.Chmod"); return nil }
@@ -339,6 +350,16 @@ func (f *File) WriteAt(p []byte, off int64) (int, error) {
 	n, err := f.Write(p)
 	f.off = save
 	return n, err
+}
+
+func (f *File) Readdir(n int) ([]fs.FileInfo, error) {
+	ents, err := f.ReadDir(n)
+	var out []fs.FileInfo
+	for _, e := range ents {
+		fi, _ := e.Info()
+		out = append(out, fi)
+	}
+	return out, err
 }
 
 func (f *File) Readdirnames(n int) ([]string, error) {
